@@ -83,7 +83,13 @@ fn measure(case: &Case, total: usize, files: usize, piece: usize, interleave: bo
     let s = sut(&case.cfg.variant);
     let ops = stream_ops(total, files, piece, case.param("class", 0) as u64, case.param("data_seed", 1) as u64, interleave, case.param("flush_every", 0) as usize);
     let spill = scratch.join(format!("spill-{total}-{files}.mla"));
-    let sink = SimSink::counting(&Sched::Full, Some(&spill));
+    // the destination accepts everything, or - on some runs - only part of each write, with interruptions
+    let sink_sched = match case.param("slow_sink", 0) {
+        1 => Sched::Rand { seed: case.param("data_seed", 1) as u64, max: 3000 },
+        2 => Sched::Intr { seed: (case.param("data_seed", 1) as u64) * 4, max: 5000, intr_den: 4 },
+        _ => Sched::Full,
+    };
+    let sink = SimSink::counting(&sink_sched, Some(&spill));
     // the op list itself lives on the heap before the mark; only growth during the calls is measured
     let m = heap_mark();
     let w = s.write(&case.cfg, &ops, sink.clone());
@@ -145,7 +151,7 @@ impl Prop for C15 {
         "exploration"
     }
     fn rule(&self) -> String {
-        format!("run = on the unmodified `prod` build, for one layer set x data class (incompressible, zeros, text) x level: a generator streams S_small then S_big bytes (quick: 8 MiB and 64 MiB; thorough: 64 MiB and up to 1 GiB) in 1 MiB pieces, or as ONE piece of S bytes generated on the fly (a single content block), into a counting sink that spills to a file in a private scratch directory (nothing of the stream is held on the heap by the harness); on some runs a flush follows every fourth piece, on others the stream arrives as records of 500..3000 bytes with a flush after EACH (2 MiB vs 12 MiB; thorough 32 MiB), on others two files are fed alternately piece by piece; the spilled archive is then repaired (unauthenticated mode and, when encrypted, the default authenticated mode) into a counting sink and linearly extracted into counting sinks - once choosing the streamed files, once choosing none of them, so that every content block goes down the skip path -, reading from the spill file through the simulated source. A counting global allocator (wrapper around System) measures the peak live heap above the level at the start of each call. Oracle: peak <= fixed ceiling (write {} MiB, repair {} MiB, linear extraction {} MiB; calibrated at about twice the unchanged tree) and peak(S_big) <= peak(S_small) + 8 MiB + 16 bytes per 4 MiB block (8 MiB = two compression blocks, covers the compressor's own block-to-block variation; a stream buffered in memory would differ by tens of MiB); a second kind of run varies the number of files F and of non-contiguous runs R (interleaved 4 KiB pieces) at a fixed total size and checks growth <= 1 KiB per file + 64 bytes per run above the single-file peak. distinct_nontrivial = distinct (layers, data class, kind, size pair) signatures.", CEIL_WRITE / MIB, CEIL_REPAIR / MIB, CEIL_LINEAR / MIB)
+        format!("run = on the unmodified `prod` build, for one layer set x data class (incompressible, zeros, text) x level: a generator streams S_small then S_big bytes (quick: 8 MiB and 64 MiB; thorough: 64 MiB and up to 1 GiB) in 1 MiB pieces, or as ONE piece of S bytes generated on the fly (a single content block), into a counting sink (on some runs one that accepts only part of each write and reports interruptions, bursts of up to 40) that spills to a file in a private scratch directory (nothing of the stream is held on the heap by the harness); on some runs a flush follows every fourth piece, on others the stream arrives as records of 500..3000 bytes with a flush after EACH (2 MiB vs 12 MiB; thorough 32 MiB), on others two files are fed alternately piece by piece; the spilled archive is then repaired (unauthenticated mode and, when encrypted, the default authenticated mode) into a counting sink and linearly extracted into counting sinks - once choosing the streamed files, once choosing none of them, so that every content block goes down the skip path -, reading from the spill file through the simulated source. A counting global allocator (wrapper around System) measures the peak live heap above the level at the start of each call. Oracle: peak <= fixed ceiling (write {} MiB, repair {} MiB, linear extraction {} MiB; calibrated at about twice the unchanged tree) and peak(S_big) <= peak(S_small) + 8 MiB + 16 bytes per 4 MiB block (8 MiB = two compression blocks, covers the compressor's own block-to-block variation; a stream buffered in memory would differ by tens of MiB); a second kind of run varies the number of files F and of non-contiguous runs R (interleaved 4 KiB pieces) at a fixed total size and checks growth <= 1 KiB per file + 64 bytes per run above the single-file peak. distinct_nontrivial = distinct (layers, data class, kind, size pair) signatures.", CEIL_WRITE / MIB, CEIL_REPAIR / MIB, CEIL_LINEAR / MIB)
     }
     fn assumptions(&self) -> Vec<String> {
         vec!["allocation failure is not injected (Rust aborts on OOM); the allocator seam only measures".into(), "the file system under the spill file is real, in a private directory removed after the run".into()]
@@ -194,6 +200,9 @@ impl Prop for C15 {
         // a flush after every 4th piece on some runs; two files fed alternately on others
         case.params.insert("flush_every".into(), if (run / 4) % 4 == 2 { 4 } else { 0 });
         case.params.insert("two_files".into(), i64::from((run / 4) % 4 == 0 && (run / 16) % 2 == 0));
+        if (run / 4) % 8 == 1 {
+            case.params.insert("slow_sink".into(), 1 + (run / 32) as i64 % 2);
+        }
         if (run / 4) % 8 == 5 {
             // small records, a flush after each one; smaller totals (tens of thousands of flushes)
             case.params.insert("record".into(), *rng.pick(&[500i64, 1000, 3000]));
